@@ -160,6 +160,13 @@ func (s *Sim) genID(sc Schema) []byte {
 	for i := range b {
 		b[i] = sc.IDAlphabet[s.Rng.IntN(len(sc.IDAlphabet))]
 	}
+	if sc.LongIDs && s.Rng.IntN(10) < 3 {
+		// nested path keys: every prefix "/d", "/d/d", ... may be a key: radix tree depth up to 45
+		return bytes.Repeat([]byte("/d"), 1+s.Rng.IntN(45))
+	}
+	if sc.LongIDs && s.Rng.IntN(10) < 8 {
+		b = append(bytes.Clone(longStems[s.Rng.IntN(len(longStems))]), b...)
+	}
 	return b
 }
 
@@ -204,6 +211,9 @@ func (s *Sim) genObj(t *simTable, working *TableModel, id []byte) *Obj {
 		}
 		for try := 0; try < 6; try++ {
 			u := s.genTag()
+			if sc.LongIDs && s.Rng.IntN(2) == 0 {
+				u = append(bytes.Clone(longStems[s.Rng.IntN(len(longStems))]), u...)
+			}
 			if hasOld && old.O.U != nil && s.Rng.IntN(3) == 0 {
 				u = old.O.U
 			}
@@ -213,7 +223,22 @@ func (s *Sim) genObj(t *simTable, working *TableModel, id []byte) *Obj {
 			}
 		}
 	}
-	if sc.Pfx {
+	if sc.Pfx && s.Rng.IntN(40) == 0 {
+		// comb: 0^i 1 / (i+1) for i < depth in the IPv6 space plus the chain end: a trie as deep as the comb
+		depth := 33 + s.Rng.IntN(40)
+		var a [16]byte
+		for i := 0; i < depth; i++ {
+			b := a
+			b[i/8] |= 1 << (7 - uint(i%8))
+			o.Pfx = append(o.Pfx, netip.PrefixFrom(netip.AddrFrom16(b), i+1))
+			if i%3 == 0 && i+2 <= 128 {
+				c := b
+				c[(i+1)/8] |= 1 << (7 - uint((i+1)%8))
+				o.Pfx = append(o.Pfx, netip.PrefixFrom(netip.AddrFrom16(c), i+2), netip.PrefixFrom(netip.AddrFrom16(b), i+2))
+			}
+		}
+		o.Pfx = append(o.Pfx, netip.PrefixFrom(netip.AddrFrom16(a), depth))
+	} else if sc.Pfx {
 		n := []int{0, 1, 1, 2, 3}[s.Rng.IntN(5)]
 		if hasOld && s.Rng.IntN(3) == 0 {
 			o.Pfx = append(o.Pfx, old.O.Pfx...)
